@@ -11,6 +11,7 @@ from ..common import rng_for, split
 from ..oracle import si_ref as R
 from ..oracle.stft_ref import compare_features
 
+OPTIMIZED_SHARDS = 1  # shards run once more in an interpreter started with -O (vf/run.py)
 LEVEL = "exploration"
 TECHNIQUE = "runtime monitor on SI compute_full with an np.convolve reference model (buffer width observed through a construction spy); float dtype sweep; write sanitizer"
 RULE = (
